@@ -181,10 +181,20 @@ def judge_perm(ctx, tag, ops_path, source):
                 ctx.count("perm.resources_per_generation", int(tok[4:]))
             if tok.startswith("objs="):
                 ctx.count("perm.objects", int(tok[5:]))
-        for kv in i["feat"].replace("info feat=", "").split(","):
-            if ":" in kv:
-                k, n = kv.rsplit(":", 1)
-                ctx.count("perm.feat." + k, int(n))
+        for tok in i["feat"].split():
+            if tok.startswith("feat="):
+                for kv in tok[5:].split(","):
+                    if ":" in kv:
+                        k, n = kv.rsplit(":", 1)
+                        ctx.count("perm.feat." + k, int(n))
+            elif tok.startswith("svcs="):
+                ctx.count("perm.hyp.services_listed", int(tok[5:]))
+            elif tok.startswith("dupkeys="):
+                ctx.count("perm.hyp.services_sharing_a_key", int(tok[8:]))
+                if int(tok[8:]) > 0:
+                    # the hypothesis KeysDistinct of sortServices_canonical does not hold on a real listing
+                    ctx.tie_broken("hypothesis:services-keys-distinct",
+                                   "two services listed by the registries share (time, name, namespace, object name, hostname, address): %s" % i["head"])
     if nc and skipped * 5 > nc:
         ctx.tie_broken("perm-unsettled", "%d of %d meshes did not reach the same control-plane state in all builds; nothing was compared for them" % (skipped, nc))
     reported = set()
